@@ -5,6 +5,7 @@ CONSTANTS
   D1s <- D0
   Svcs <- C05QuickSvcs
   D2s <- D01
+  NearOffsets <- NearNone
   Weights <- W12
   ErrKinds <- ErrApi
   MaxErrors = 1
